@@ -211,6 +211,13 @@ def make_transformer(tr, rec, ns=None, pc=None):
     style = (pc or {}).get("tr_style", "plain")
 
     def transformer(cls, fields):
+        if (pc or {}).get("tr_probe", True):
+            # user code looking at the class it is handed: not an attrs class yet (unless re-exported by a base)
+            for probe in (attr.has, attr.fields, attr.fields_dict):
+                try:
+                    probe(cls)
+                except Exception:  # noqa: BLE001
+                    pass
         rec["received"] = [field_obs(a) for a in fields]
         if tr == "ident":
             out = fields
@@ -372,6 +379,11 @@ def _class_source(k, c, pc, base_names, ns, rec, name=None):
                   "except Exception:", "    pass", f"class {name}({bases}):", *body, f"{name} = _d_{uid}({name})"]
         return "\n".join(lines), None
     lines += [f"class {name}({bases}):", *body, f"{h} = {name}"]
+    if history.startswith("pre_"):
+        # introspection of the still-undecorated class, then the decoration (in place for dict classes)
+        what = {"pre_has": ["has"], "pre_fields": ["fields"], "pre_asdict": ["asdict"], "pre_sub": ["sub"],
+                "pre_all": ["has", "fields", "asdict", "sub"]}[history]
+        lines += [f"_pre_introspect({h}, {what!r})"]
     if history.startswith("failed"):
         poison = {
             "failed_cache_hash": {"cache_hash": "True", "eq": "False", "slots": "False"},
@@ -391,13 +403,43 @@ def _class_source(k, c, pc, base_names, ns, rec, name=None):
     return "\n".join(lines), None
 
 
+def make_pre_introspect(ns):
+    def pre(cls, what):
+        if "has" in what:
+            attr.has(cls)
+        if "fields" in what:
+            for probe in (attr.fields, attr.fields_dict):
+                try:
+                    probe(cls)
+                except Exception:  # noqa: BLE001 -- NotAnAttrsClassError expected without attrs ancestors
+                    pass
+        if "asdict" in what:
+            # asdict() meeting an instance of the still-plain class as a value asks has() for its class
+            try:
+                holder = attr.make_class("Holder", ["v"])(object.__new__(cls))
+                attr.asdict(holder)
+                attr.astuple(holder)
+            except Exception:  # noqa: BLE001
+                pass
+        if "sub" in what:
+            # a plain subclass made (and looked at) before its base is decorated
+            try:
+                aux = type("AuxSub", (cls,), {})
+                attr.has(aux)
+                ns["_user"]["aux"].append(aux)
+            except Exception:  # noqa: BLE001
+                pass
+    return pre
+
+
 def new_namespace():
     mod = types.ModuleType("c07_synth")
     ns = mod.__dict__
     ns.update(attr=attr, attrs=attrs, typing=typing, t=typing, ClassVar=typing.ClassVar, _kw={},
-              _user={"mutators": [], "these": [], "lists": []})
+              _user={"mutators": [], "these": [], "lists": [], "aux": []})
     for k in range(8):
         ns[f"T{k}"] = marker(k)
+    ns["_pre_introspect"] = make_pre_introspect(ns)
     return mod, ns
 
 
